@@ -556,7 +556,7 @@ func (e *c07Env) build(cfg *c07Config) (*Proxy, error) {
 // ---------------------------------------------------------------------------------------------
 // client header sets
 
-var c07Styles = []string{"none", "canonical", "lower", "upper", "mixed", "repeated", "comma", "connection"}
+var c07Styles = []string{"none", "canonical", "lower", "upper", "mixed", "repeated", "comma", "connection", "empty-first"}
 
 // thorough tier only
 var c07ExtraStyles = []string{"repeated-credential-last", "empty-value", "comma-no-space"}
@@ -618,6 +618,14 @@ func c07ClientHeaders(cr *c07Cred, style string) [][2]string {
 			h = append(h, [2]string{strings.ToUpper(n), fmt.Sprintf("evil-rcl-%d-a", i)}, [2]string{n, fmt.Sprintf("evil-rcl-%d-b", i)}, [2]string{c07CaseName(n, "mixed"), fmt.Sprintf("evil-rcl-%d-c", i)})
 		}
 		h = append(h, [2]string{"authorization", evilAuthz("")})
+		if cr.Authz != "" {
+			h = append(h, [2]string{"Authorization", cr.Authz})
+		}
+	case "empty-first":
+		// every name twice: an empty first occurrence, then a value, in another letter case ("any multiplicity")
+		for i, n := range c07SpoofNames {
+			h = append(h, [2]string{n, ""}, [2]string{strings.ToLower(n), fmt.Sprintf("evil-ef-%d", i)})
+		}
 		if cr.Authz != "" {
 			h = append(h, [2]string{"Authorization", cr.Authz})
 		}
